@@ -195,6 +195,12 @@ def _new_diff_plain(record=True):
     return SinglePhaseModel([-1.0, 1.0], 5, ['A', 'B', 'C'], ['ALPHA'], record=record)
 
 
+def _new_homog_plain(record=True):
+    vlib.use_repo()
+    from kawin.diffusion import HomogenizationModel
+    return HomogenizationModel([-1.0, 1.0], 5, ['A', 'B', 'C'], ['ALPHA', 'BETA'], record=record)
+
+
 def _fill(model, names, setter, mk):
     vals = {}
     for i, s in enumerate(names):
@@ -345,6 +351,152 @@ def expand(glob, per, phases):
     for ph in phases:
         out += [(k + ph, (s + '@' + ph) if s != '?' else s, o) for k, s, o in per]
     return out
+
+
+# ---------------------------------------------------------------------------- every class with a save / load pair
+def saveload_pairs():
+    """walk the kawin package under test: every class that defines or inherits a method pair save<X> / load<X>
+    -> [(class name, module, save method, load method, signature of the save method)]"""
+    vlib.use_repo()
+    import importlib, pkgutil
+    import kawin
+    out = []
+    for mi in pkgutil.walk_packages(kawin.__path__, 'kawin.'):
+        if '.tests' in mi.name:
+            continue
+        try:
+            mod = importlib.import_module(mi.name)
+        except Exception:
+            continue
+        for n, c in inspect.getmembers(mod, inspect.isclass):
+            if c.__module__ != mod.__name__:
+                continue
+            for a in sorted(dir(c)):
+                if a.startswith('save') and callable(getattr(c, a)) and callable(getattr(c, 'load' + a[4:], None)):
+                    out.append((c.__name__, c.__module__, a, 'load' + a[4:], str(inspect.signature(getattr(c, a)))))
+    return sorted(set(out))
+
+
+def save_variants(fn):
+    """every combination of the boolean keywords of a save method -> [(branch tag, kwargs)]; the tag names the on-disk format:
+    'compressed' (np.savez_compressed, also the only format of GenericModel.save) | 'uncompressed' (np.savez)"""
+    params = [p for p in list(inspect.signature(fn).parameters.values())[1:] if isinstance(p.default, bool)]
+    combos = [{}]
+    for p in params:
+        combos = [dict(c, **{p.name: v}) for c in combos for v in (True, False)]
+    out = []
+    for kw in combos:
+        tag = 'compressed' if kw.get('compressed', True) else 'uncompressed'
+        tag += ''.join(',%s=%s' % (k, v) for k, v in sorted(kw.items()) if k != 'compressed')
+        out.append((tag, kw))
+    return out
+
+
+def branch_of(tag):
+    return tag.split(',')[0]
+
+
+def plain_slot_names(obj):
+    """instance attributes holding an array or None: the candidates for what a save method writes"""
+    return [k for k, v in vars(obj).items() if v is None or isinstance(v, np.ndarray)]
+
+
+def plain_classes():
+    """the classes whose save / load pair is not the per-phase toDict / fromDict of the precipitation model; `new` builds an
+    object in the state in which its save method writes a file"""
+    vlib.use_repo()
+    from kawin.precipitation.coupling import StrengthModel, GrainGrowthModel
+    from kawin.precipitation import PopulationBalanceModel
+    from kawin.GenericModel import Coupler
+    def rec_pbm():
+        p = PopulationBalanceModel(); p.setRecording(True); return p
+    return [dict(name='StrengthModel', new=StrengthModel, save='save', load='load'),
+            dict(name='PopulationBalanceModel', new=rec_pbm, save='saveRecordedPSD', load='loadRecordedPSD'),
+            dict(name='GrainGrowthModel', new=GrainGrowthModel, save='save', load='load'),
+            dict(name='Coupler', new=lambda: Coupler([GrainGrowthModel()]), save='save', load='load')]
+
+
+def written_file(d):
+    fs = sorted(os.listdir(d))
+    if len(fs) != 1:
+        raise RuntimeError('save wrote %d files: %s' % (len(fs), fs))
+    return os.path.join(d, fs[0])
+
+
+def read_npz(fn):
+    with np.load(fn, allow_pickle=True) as z:
+        return {k: (None if z[k].dtype == object else np.array(z[k])) for k in z.files}
+
+
+def extract_plain_tables(spec):
+    """run the real save method (every keyword branch) and the real load method of an object whose array attributes hold
+    marker data -> ({branch tag: [(key, slot, optional)]}, [(key, slot, optional)] of load)"""
+    mk = _Marker()
+    writes, protos = {}, {}
+    for tag, kw in save_variants(getattr(spec['new'](), spec['save'])):
+        o = spec['new']()
+        names = plain_slot_names(o)
+        vals = {}
+        for i, s in enumerate(names):
+            vals[s] = mk.arr((3 + i % 3, 2) if i % 2 else (4 + i % 3,)); setattr(o, s, vals[s])
+        def saved():
+            d = tempfile.mkdtemp(prefix='kawin_C20_tab_', dir='/tmp')
+            try:
+                getattr(o, spec['save'])(os.path.join(d, 'f.npz'), **kw)
+                return read_npz(written_file(d)) if os.listdir(d) else {}
+            finally:
+                shutil.rmtree(d, ignore_errors=True)
+        f = saved()
+        lines = []
+        for k, v in f.items():
+            slot = (_match(v, vals) if v is not None else None) or '?'
+            opt = False
+            if slot != '?':
+                setattr(o, slot, None)
+                try:
+                    opt = k not in saved()
+                except Exception:
+                    opt = False
+                finally:
+                    setattr(o, slot, vals[slot])
+            lines.append((k, slot, opt))
+            protos.setdefault(k, v)
+        writes[tag] = lines
+    # ---- load: a file with fresh marker data under every key any branch writes, loaded into an object full of marker data
+    keys = list(protos)
+    def fresh_file(d, skip=None):
+        data = {k: mk.arr(np.shape(protos[k]) if protos[k] is not None else (4,)) for k in keys if k != skip}
+        fn = os.path.join(d, 'g.npz')
+        np.savez(fn, **data)
+        return fn, data
+    d = tempfile.mkdtemp(prefix='kawin_C20_tab_', dir='/tmp')
+    try:
+        fn, data = fresh_file(d)
+        o2 = spec['new']()
+        names2 = plain_slot_names(o2)
+        pre = {}
+        for i, s in enumerate(names2):
+            pre[s] = mk.arr((2 + i % 3,)); setattr(o2, s, pre[s])
+        getattr(o2, spec['load'])(fn)
+        got = {s: getattr(o2, s, None) for s in names2}
+        reads = []
+        for k in keys:
+            slots = [s for s in names2 if got[s] is not None and _safe_same(got[s], data[k])]
+            fn3, _ = fresh_file(d, skip=k)
+            o3 = spec['new']()
+            try:
+                getattr(o3, spec['load'])(fn3); opt = True
+            except Exception:
+                opt = False
+            for s in slots:
+                reads.append((k, s if not (opt and getattr(o3, s, None) is not None) else '?keeps-default:' + s, opt))
+        read_slots = {r[1] for r in reads}
+        for s in names2:            # an attribute load changes without taking it from the file
+            if s not in read_slots and not _safe_same(got[s], pre[s]):
+                reads.append(('?', '?changed:' + s, False))
+    finally:
+        shutil.rmtree(d, ignore_errors=True)
+    return writes, reads
 
 
 class RecTherm:
@@ -598,6 +750,13 @@ def lean_pairs(name, doc, pairs, second=lean_str):
     return '/-- %s -/\ndef %s : List (%s) :=\n  [%s]\n' % (doc, name, ty, body)
 
 
+def lean_save_rows(name, doc, rows):
+    b = lambda x: 'true' if x else 'false'
+    ent = lambda es: '[' + ', '.join('(%s, %s, %s)' % (lean_str(k), lean_str(sl), b(o)) for k, sl, o in es) + ']'
+    body = ',\n   '.join('(%s, %s,\n      %s,\n      %s)' % (lean_str(c), lean_str(t), ent(w), ent(r)) for c, t, w, r in rows)
+    return '/-- %s -/\ndef %s : List (String × String × List (String × String × Bool) × List (String × String × Bool)) :=\n  [%s]\n' % (doc, name, body)
+
+
 def lean_strs(name, doc, xs):
     return '/-- %s -/\ndef %s : List String :=\n  [%s]\n' % (doc, name, ', '.join(lean_str(x) for x in xs))
 
@@ -623,7 +782,20 @@ def build_tables():
         bt, bp = fallthrough_table(BinarySurrogate, 2)
         mt, mp = fallthrough_table(MulticomponentSurrogate, 3)
         bf, mf = forwarding_rows(BinarySurrogate, 2), forwarding_rows(MulticomponentSurrogate, 3)
-    return dict(bf=bf, mf=mf, attrs=attrs, rec_ph=rec_ph, pw=pw, pr=pr, gW=gW, phW=phW, gR=gR, phR=phR, gZ=gZ, phZ=phZ, dw=dw, dr=dr, dz=dz,
+        # ---- one row per (class with a save/load pair, keyword branch of save)
+        rows, kwcls = [], []
+        for spec in plain_classes():
+            w, r = extract_plain_tables(spec)
+            if len(w) > 1:
+                kwcls.append(spec['name'])
+            rows += [(spec['name'], tag, lines, r) for tag, lines in w.items()]
+        hw, hr, hz = extract_tables(lambda: _new_homog_plain(True), lambda m: list(DIFF_SLOTS), diff_get, diff_set)
+        rows += [('SinglePhaseModel', 'compressed', dw, dr), ('HomogenizationModel', 'compressed', hw, hr),
+                 ('PrecipitateModel', 'compressed', pw, pr)]         # the lines as recorded on the 2-phase model (phases rec_ph)
+        if hz != dz:
+            raise RuntimeError('HomogenizationModel.fromDict resets %r, SinglePhaseModel.fromDict %r' % (hz, dz))
+        pairs = saveload_pairs()
+    return dict(rows=rows, kwcls=kwcls, pairs=pairs, bf=bf, mf=mf, attrs=attrs, rec_ph=rec_ph, pw=pw, pr=pr, gW=gW, phW=phW, gR=gR, phR=phR, gZ=gZ, phZ=phZ, dw=dw, dr=dr, dz=dz,
                 bg=surrogate_getters(BinarySurrogate), mg=surrogate_getters(MulticomponentSurrogate), bt=bt, bp=bp, mt=mt, mp=mp)
 
 
@@ -657,6 +829,11 @@ def render_tables(t):
                        '[(named parameter, handed on as "pos" | "kw" | "kw:<other name>" | "drop")], [(further keyword argument of the thermodynamics method, handed on as)], '
                        'parameter names of the thermodynamics method of the same name)', t['bf']),
              lean_rows('multiForwarding', 'untrained MulticomponentSurrogate, argument forwarding (same layout)', t['mf']),
+             lean_save_rows('saveTables', 'EVERY class with a save / load pair x EVERY keyword branch of its save method: (class, branch = on-disk format, '
+                            'lines (key in the file, attribute written, skipped when None) of that branch, lines (key, attribute stored into, missing key tolerated) of load); '
+                            'read off the real methods run on marker arrays in every array attribute', t['rows']),
+             lean_strs('saveKeywordClasses', 'classes whose save method has a `compressed` keyword (two branches)', t['kwcls']),
+             lean_pairs('saveLoadPairs', 'every class of the package that defines or inherits a save<X> / load<X> method pair: (class, save method)', [(c, a) for c, _m, a, _l, _s in t['pairs']]),
              'end KawinV.Gen.C20\n']
     return '\n'.join(parts)
 
@@ -905,6 +1082,177 @@ def slot_template(s):
     return s.split('@')[0]
 
 
+# ---------------------------------------------------------------------------- the oracle for EVERY class with a save/load pair
+CLS = {'lines': [], 'pending': []}       # sl.cls protocol lines of this corr() call (rows of the generated table saveTables)
+
+
+def _content_key(v):
+    a = np.asarray(v, dtype=float)
+    return (a.shape, a.tobytes())
+
+
+def fields_oracle(res, cname, tag, before, f0, f1, raw, desc):
+    """ORACLE on one save -> load of one object.  `before`: attribute -> array | None of the saved object (deep copy taken before
+    save), `f0` / `f1`: the freshly constructed object before / after load, `raw`: the entries of the file itself.
+    The fields save() writes are DISCOVERED: every attribute load() changed in the fresh object and every attribute whose array is,
+    bit for bit, an entry of the file.  Each must hold after load exactly what it held in the saved object; and two entries of the
+    file hold identical arrays only if as many attributes of the saved object held that array.
+    keys  saveload:<class>:<compressed|uncompressed>:<field>-differs | :<key>-holds-the-same-array-as-<key>"""
+    br = branch_of(tag)
+    names = list(before)
+    file_vals = [v for v in raw.values() if v is not None and np.size(v) > 0]
+    changed = [n for n in names if not same(f0[n], f1[n])]
+    matched = [n for n in names if before[n] is not None and np.size(before[n]) > 0 and any(_safe_same(before[n], v) for v in file_vals)]
+    W = [n for n in names if n in changed or n in matched]
+    for n in W:
+        if not same(before[n], f1[n]):
+            src = [m for m in names if m != n and f1[n] is not None and before[m] is not None and same(before[m], f1[n])]
+            res.violate('saveload:%s:%s:%s-differs' % (cname, br, slot_template(n)),
+                        '%s: after save(%s) -> load into a freshly constructed object the field %s differs from the saved object%s'
+                        % (cname, ', '.join('%s=%r' % kv for kv in sorted(desc.get('save_kwargs', {}).items())) or 'default keywords', n,
+                           ' (it holds what the saved object had in %s)' % src[0] if src else ''),
+                        desc, observed=brief(f1[n]), required=brief(before[n]))
+    # two entries of the file with identical contents
+    groups = {}
+    for k, v in raw.items():
+        if v is not None and np.size(v) > 0:
+            groups.setdefault(_content_key(v), []).append(k)
+    model_count = {}
+    for n in names:
+        if before[n] is not None and np.size(before[n]) > 0:
+            ck = _content_key(before[n]); model_count[ck] = model_count.get(ck, 0) + 1
+    for ck, ks in groups.items():
+        if len(ks) > 1 and model_count.get(ck, 0) < len(ks):
+            res.violate('saveload:%s:%s:%s-holds-the-same-array-as-%s' % (cname, br, key_template(ks[-1], desc.get('phases', [])), key_template(ks[0], desc.get('phases', []))),
+                        '%s: the entries %s of the saved file hold one and the same array, but only %d field(s) of the saved object held it'
+                        % (cname, ks, model_count.get(ck, 0)), desc, observed={k: brief(raw[k]) for k in ks[:3]}, required='different fields are saved as different entries')
+    vals = [before[n] for n in W]
+    populated = bool(W) and all(v is not None and np.size(v) > 0 and np.any(np.asarray(v, dtype=float) != 0) for v in vals)
+    distinct = len({_content_key(v) for v in vals if v is not None}) == len(vals)
+    res.count('saveload:%s:%s' % (cname, br))
+    res.count('saveload-fields:%s' % ('none-written' if not W else 'populated-and-pairwise-distinct' if populated and distinct else 'some-empty-zero-or-equal'))
+    if not W:
+        res.count('saveload:%s:no-fields-written' % cname)
+    return W, populated and distinct
+
+
+def class_roundtrip(res, tmp, cname, tag, kw, orig, make_fresh, names, do_save, do_load, desc, getter=None, unloadable=False):
+    """one class, one keyword branch of its save method: save `orig` into an empty directory, load THE FILE THAT WAS WRITTEN into a
+    freshly constructed object, `fields_oracle`; queues the Lean-model line (row of the generated table)"""
+    getter = getter or (lambda o, n: getattr(o, n, None))
+    br = branch_of(tag)
+    desc = dict(desc, saveload_class=cname, branch=tag, save_kwargs=dict(kw))
+    before = slots_of(orig, names, getter)
+    d = tempfile.mkdtemp(prefix='cls_', dir=tmp)
+    try:
+        fn = do_save(orig, d, kw)
+    except Exception as e:
+        res.violate('saveload:%s:%s:save-raises-%s' % (cname, br, type(e).__name__), '%s.save raised %s: %s' % (cname, type(e).__name__, str(e)[:120]), desc,
+                    observed=traceback.format_exc()[-500:], required='the model is saved'); return None
+    if fn is None or not os.path.exists(fn):
+        res.violate('saveload:%s:%s:save-wrote-no-file' % (cname, br), '%s.save returned without writing the file (directory now: %s)' % (cname, sorted(os.listdir(d))), desc); return None
+    after = slots_of(orig, names, getter)
+    ch = [n for n in names if not same(before[n], after[n])]
+    if ch:
+        res.violate('saveload:%s:%s:save-changes-the-model' % (cname, br), '%s.save changed field(s) %s of the object it saved' % (cname, ch[:6]), desc,
+                    observed={n: brief(after[n]) for n in ch[:4]}, required={n: brief(before[n]) for n in ch[:4]})
+    raw = read_npz(fn)
+    import zipfile
+    with zipfile.ZipFile(fn) as z:
+        res.count('saveload-file-on-disk:%s' % ('deflated' if any(i.compress_type == zipfile.ZIP_DEFLATED for i in z.infolist()) else 'stored' if z.infolist() else 'empty-archive'))
+    fresh = make_fresh()
+    f0 = slots_of(fresh, names, getter)
+    outcome, f1 = None, None
+    try:
+        do_load(fresh, fn)
+    except KeyError as e:
+        outcome = ('keyerror', str(e.args[0]))
+    except ValueError as e:
+        outcome = ('objarray',) if 'Object arrays' in str(e) else ('ValueError', str(e)[:80])
+    except Exception as e:
+        outcome = (type(e).__name__, str(e)[:80])
+    nontrivial = False
+    if outcome is not None:
+        if not unloadable:
+            res.violate('saveload:%s:%s:load-raises-%s' % (cname, br, {'objarray': 'ValueError-object-arrays', 'keyerror': 'KeyError'}.get(outcome[0], outcome[0])),
+                        '%s: load of the file its own save wrote raised %s' % (cname, outcome,), desc, observed=outcome, required='the file loads')
+        else:
+            res.count('saveload:%s:never-updated-object-saves-None-and-does-not-load' % cname)
+    else:
+        f1 = slots_of(fresh, names, getter)
+        _W, nontrivial = fields_oracle(res, cname, tag, before, f0, f1, raw, desc)
+    res.case(('saveload', cname, tag, repr(sorted((k, repr(v)[:40]) for k, v in desc.items() if k not in ('save_kwargs',)))[:200]), nontrivial)
+    row = None
+    try:
+        row = [r for r in tables()['rows'] if r[0] == cname and r[1] == br]
+    except Exception:
+        pass
+    if row:
+        tslots = sorted({e[1] for e in row[0][2] + row[0][3]})
+        ok = all(t in before for t in tslots)
+        if ok:
+            CLS['lines'].append('sl.cls %s %s %s %s' % (cname, br, enc_slots({t: before[t] for t in tslots}), enc_slots({t: f0[t] for t in tslots})))
+            CLS['pending'].append(dict(desc=desc, file_keys=sorted(raw), outcome=outcome, after=f1, names=tslots))
+    return fresh
+
+
+def compare_classes(res, answers, pending):
+    for ans, p in zip(answers, pending):
+        res.count('saveload-class-model-compared')
+        if ans.strip() == 'U':
+            res.disagree('class / branch missing from the generated table', p['desc'], 'a save method with this branch', 'no row'); continue
+        r = parse_rt(ans)
+        if 'bad' in r:
+            res.disagree('save/load class model error', p['desc'], 'ok', r['bad']); continue
+        if sorted(r['keys']) != p['file_keys']:
+            res.disagree('keys of the saved file', p['desc'], p['file_keys'], sorted(r['keys']))
+        impl_err = None if p['outcome'] is None else (p['outcome'] if p['outcome'][0] in ('objarray', 'keyerror') else ('other',))
+        if (r['err'] is None) != (impl_err is None) or (r['err'] is not None and tuple(r['err']) != tuple(impl_err)):
+            res.disagree('load outcome', p['desc'], p['outcome'], r['err']); continue
+        if r['err'] is None:
+            for n in p['names']:
+                if not same(r['slots'].get(n), p['after'][n]):
+                    res.disagree('field %s after load' % n, p['desc'], brief(p['after'][n]), brief(r['slots'].get(n))); break
+
+
+def save_named(method, name='model.npz'):
+    """do_save for class_roundtrip: obj.<method>(<dir>/<name>, **kw); the file to load is the one file the call wrote"""
+    def f(obj, d, kw):
+        getattr(obj, method)(os.path.join(d, name), **kw)
+        fs = sorted(os.listdir(d))
+        return os.path.join(d, fs[0]) if len(fs) == 1 else None
+    return f
+
+
+def strength_roundtrips(res, tmp, sm, desc):
+    """StrengthModel: every keyword branch of save, loaded into a fresh StrengthModel"""
+    vlib.use_repo()
+    from kawin.precipitation.coupling import StrengthModel
+    names = sorted(set(plain_slot_names(sm)) | set(plain_slot_names(StrengthModel())))
+    for tag, kw in save_variants(StrengthModel.save):
+        class_roundtrip(res, tmp, 'StrengthModel', tag, kw, sm, StrengthModel, names, save_named('save', 'strength.npz'),
+                        lambda o, fn: o.load(fn), desc, unloadable=sm.rss is None)
+        hist = None if sm.rss is None else ('particles-exist-rss!=ls' if np.any(sm.rss > 0) and not same(sm.rss, sm.ls) else 'no-particles-yet-rss=ls=0')
+        res.count('saveload-strength-histories:%s' % hist)
+
+
+def recorded_psd_roundtrips(res, tmp, m, make_model, desc):
+    """PrecipitateModel.saveRecordedPSD (every boolean keyword x phase='all' / each phase name) -> PopulationBalanceModel.loadRecordedPSD
+    into the population balance model of a freshly constructed precipitation model"""
+    phases = [str(p) for p in m.phases]
+    for tag, kw in save_variants(type(m).saveRecordedPSD):
+        for pi, ph in enumerate(phases):
+            for sel in ('all', ph):
+                def do_save(pbm, d, kw, sel=sel, ph=ph):
+                    m.saveRecordedPSD(os.path.join(d, 'psd'), phase=sel, **kw)
+                    want = 'psd_%s.npz' % ph if sel == 'all' else 'psd.npz'
+                    return os.path.join(d, want) if want in os.listdir(d) else None
+                pbm = m.PBM[pi]
+                names = sorted(set(plain_slot_names(pbm)))
+                class_roundtrip(res, tmp, 'PopulationBalanceModel', tag, kw, pbm, lambda pi=pi: make_model().PBM[pi], names, do_save,
+                                lambda o, fn: o.loadRecordedPSD(fn), dict(desc, recorded_psd_of_phase=ph, phase_keyword=sel, phases=phases))
+
+
 def roundtrip_check(res, ctx, tmp, kind, model, fresh_model, desc, lines, pending, tag):
     """save `model`, load into `fresh_model`; direct oracle on every slot; queues the Lean-model comparison"""
     names = precip_slot_names(model) if kind == 'P' else list(DIFF_SLOTS)
@@ -950,6 +1298,10 @@ def roundtrip_check(res, ctx, tmp, kind, model, fresh_model, desc, lines, pendin
             res.violate('%s-slot-not-reproduced-%s' % (mname, slot_template(n)),
                         'after save -> load into a freshly constructed model slot %s differs from the original' % n, desc,
                         observed=brief(s1[n]), required=brief(s[n]))
+        # the same oracle as for every other class with a save / load pair (fields discovered from the file and from what load changes)
+        keep = [n for n in names if slot_template(n) not in PSDREC_SLOTS]
+        fields_oracle(res, type(model).__name__, 'compressed', {n: s[n] for n in keep}, {n: s0[n] for n in keep}, {n: s1[n] for n in keep},
+                      read_npz(fn + '.npz'), dict(desc, saveload_class=type(model).__name__, branch='compressed', save_kwargs={}, phases=phases))
         if psd_lost:
             res.violate('psd-recording-not-saved', 'PSD recording was on: the recorded size-distribution history (%s; %d recorded steps) is not in the saved file, the reloaded model holds None'
                         % (', '.join(psd_lost), len(s[psd_lost[0]])), desc, observed=None, required=brief(s[psd_lost[0]]))
@@ -1014,6 +1366,10 @@ def run_precip_case(res, ctx, tmp, cfg, lines, pending, resume=False):
                     if not same(getattr(m.PBM[p], a), getattr(f2.PBM[p], a)):
                         res.violate('recorded-psd-file-not-reproduced-' + a, 'saveRecordedPSD -> loadRecordedPSD changes %s of phase %s' % (a, ph), desc)
             res.count('recorded-psd-file-roundtrip')
+        if all(p._record for p in m.PBM):
+            recorded_psd_roundtrips(res, tmp, m, lambda: build_precip(cfg), desc)
+        if sm is not None:
+            strength_roundtrips(res, tmp, sm, desc)
         if sm is not None and sm.rss is not None:
             f = os.path.join(tmp, 'strength_%d.npz' % len(os.listdir(tmp)))
             sm.save(f)
@@ -1993,6 +2349,8 @@ def gen_history(rng, kind):
     the '.npz' suffix (the same file)."""
     names = rng.sample(HIST_NAMES, rng.choice([2, 2, 3]))
     spell = lambda f: f + ('.npz' if rng.random() < 0.4 else '')
+    if kind == 'S':
+        return gen_history_strength(rng, names, spell)
     steps = (lambda: rng.randint(15, 45)) if kind == 'P' else (lambda: rng.randint(3, 25))
     max_live = 3 if kind == 'P' else 5
     loaded_solves_left = 1 if kind == 'P' else 4          # the first solve call of a precipitation model costs ~1 s (setup)
@@ -2018,6 +2376,28 @@ def gen_history(rng, kind):
     return ops
 
 
+def gen_history_strength(rng, names, spell):
+    """histories of a StrengthModel coupled to a precipitation run: ('solve', 0, steps) advances the run the model 0 is coupled to;
+    ('save', i, name, compressed) saves live strength model i in one of the two on-disk formats (np.savez adds '.npz' to a name
+    without it); ('load', name.npz) loads into a fresh StrengthModel, which joins the live models (it can be saved again, not solved).
+    The first and the last save of the history go to the same name in DIFFERENT formats."""
+    steps = lambda: rng.randint(8, 25)
+    c0 = rng.random() < 0.5
+    ops = [('solve', 0, steps()), ('save', 0, spell(names[0]), c0), ('load', canon_name(names[0]))]
+    live, saved = 2, {names[0]}
+    for _ in range(rng.randint(4, 9)):
+        k = rng.random()
+        if k < 0.3:
+            ops.append(('solve', 0, steps()))
+        elif k < 0.7:
+            f = rng.choice(names)
+            ops.append(('save', rng.randrange(live), spell(f), rng.random() < 0.5)); saved.add(f)
+        elif live < 5:
+            ops.append(('load', canon_name(rng.choice(sorted(saved))))); live += 1
+    ops += [('solve', 0, steps()), ('save', 0, spell(names[0]), not c0), ('load', canon_name(names[0]))]
+    return ops
+
+
 def canon_name(f):
     return f if f.endswith('.npz') else f + '.npz'
 
@@ -2031,6 +2411,13 @@ def run_history(res, ctx, tmp, kind, cfg, ops, lines=None, pending=None):
         names_of = lambda m: [n for n in precip_slot_names(m) if slot_template(n) not in HIST_IGNORED]
         solve = lambda cap, n: cap.solve(3600.0 * 2, n, cfg['solver'])
         phases = None
+    elif kind == 'S':
+        vlib.use_repo()
+        from kawin.precipitation.coupling import StrengthModel
+        build = StrengthModel
+        getter = lambda o, n: getattr(o, n, None)
+        names_of = lambda m: ['rss', 'ls', 'solidStrength']
+        solve = lambda cap, n: cap.solve(3600.0 * 2, n, cfg['solver'])
     else:
         build = lambda: build_diff(cfg)
         getter = diff_get
@@ -2040,16 +2427,27 @@ def run_history(res, ctx, tmp, kind, cfg, ops, lines=None, pending=None):
             return cap.solve(dt * n * 1.0001, n + 2, cfg['solver']) if dt is not None else cap.solve(2.0e5, n, cfg['solver'])
     sub = tempfile.mkdtemp(prefix='hist_', dir=tmp)
     m0 = build()
+    if kind == 'S':
+        pm = build_precip(cfg)                                   # the run the strength model is coupled to, started from an existing
+        m0.setSolidSolutionStrength({'ZR': 2.0e8}, 1)            # particle population so that rss != ls != solid solution strength
+        pm.addCouplingModel(m0)                                  # from the first step on
+        with _quiet():
+            pm.setup()
+        N0, r0, sg = cfg['seedPSD']
+        r = pm.PBM[0].PSDsize
+        pm.PBM[0].PSD = N0 / (r * sg * np.sqrt(2 * np.pi)) * np.exp(-np.log(r / r0) ** 2 / (2 * sg ** 2)) * (r[1] - r[0])
     names = names_of(m0)
     phases = [str(p) for p in m0.phases] if kind == 'P' else []
     snap = lambda m: dict(slots_of(m, names, getter), **({'pData.n': np.array(float(m.pData.n))} if kind == 'P' else {}))
     fields = names + (['pData.n'] if kind == 'P' else [])
     states = [slots_of(m0, names, getter)]                       # state 0: a freshly constructed model
-    live, caps = [m0], [StepCap(m0)]
+    live, caps = [m0], [StepCap(pm if kind == 'S' else m0)]
     store = {}                                                   # canonical file name -> snapshots of every save to it, in order
+    store_branch = {}                                            # canonical file name -> on-disk format of the last save (kind S)
+    progress = (lambda sn: float(np.ravel(sn['t' if kind == 'D' else 'pData.time'])[-1])) if kind != 'S' else (lambda sn: float(len(sn['rss'])))
     mops, loads = [], []
     idle = {}                                                    # live index -> snapshot at load time, for loaded models not touched since
-    mname = 'precipitation' if kind == 'P' else 'diffusion'
+    mname = {'P': 'precipitation', 'D': 'diffusion', 'S': 'strength'}[kind]
     base = dict(history=True, kind=kind, cfg=dict(cfg), ops=[list(o) for o in ops])
     nloads_checked = 0
     for k, op in enumerate(ops):
@@ -2060,9 +2458,14 @@ def run_history(res, ctx, tmp, kind, cfg, ops, lines=None, pending=None):
             states.append(slots_of(live[i], names, getter)); mops.append('S %d %d' % (i, len(states) - 1))
             res.count('history-op:solve-%s' % ('original' if i == 0 else 'loaded-model'))
         elif op[0] == 'save':
-            _, i, f = op
+            i, f = op[1], op[2]
             before = snap(live[i])
-            live[i].save(os.path.join(sub, f))
+            if kind == 'S':
+                live[i].save(os.path.join(sub, f), compressed=bool(op[3]))
+                store_branch[canon_name(f)] = 'compressed' if op[3] else 'uncompressed'
+                res.count('history-op:save-strength-%s' % store_branch[canon_name(f)])
+            else:
+                live[i].save(os.path.join(sub, f))
             store.setdefault(canon_name(f), []).append(snap(live[i]))
             changed = [n for n in fields if not same(before[n], store[canon_name(f)][-1][n])]
             if changed:
@@ -2073,6 +2476,7 @@ def run_history(res, ctx, tmp, kind, cfg, ops, lines=None, pending=None):
         else:
             _, f = op
             fresh = build()
+            fresh0 = snap(fresh)
             desc = dict(base, at_op=k, file=f, saves_to_this_name=len(store.get(canon_name(f), [])), model=mname)
             mops.append('L %s 0' % f)
             try:
@@ -2091,14 +2495,20 @@ def run_history(res, ctx, tmp, kind, cfg, ops, lines=None, pending=None):
             nloads_checked += 1
             nth = len(store[canon_name(f)])
             res.count('history-op:load-after-%s' % ('one-save' if nth == 1 else 'several-saves-to-the-name'))
-            res.case(('history', kind, repr(sorted(cfg.items()))[:80], k, f, nth), bool(float(np.ravel(want['t' if kind == 'D' else 'pData.time'])[-1]) > 0))
+            if kind == 'S':
+                res.case(('history', kind, repr(sorted(cfg.items()))[:80], k, f, nth), bool(np.any(want['rss'] > 0) and not same(want['rss'], want['ls'])))
+                br = store_branch[canon_name(f)]
+                CLS['lines'].append('sl.cls StrengthModel %s %s %s' % (br, enc_slots({n: want[n] for n in names}), enc_slots({n: fresh0[n] for n in names})))
+                CLS['pending'].append(dict(desc=desc, file_keys=sorted(read_npz(os.path.join(sub, canon_name(f)))), outcome=None, after=got, names=list(names)))
+            else:
+                res.case(('history', kind, repr(sorted(cfg.items()))[:80], k, f, nth), bool(progress(want) > 0))
             bad = [n for n in fields if not same(want[n], got[n])]
             if not bad:
                 continue
             eq = lambda sn: all(same(sn[n], got[n]) for n in fields)
             earlier = [j for j, sn in enumerate(store[canon_name(f)][:-1]) if eq(sn)]
             other = [g for g, sns in store.items() if g != canon_name(f) and any(eq(sn) for sn in sns)]
-            tnow = lambda sn: float(np.ravel(sn['t' if kind == 'D' else 'pData.time'])[-1])
+            tnow = progress
             if earlier:
                 res.violate('saveload-history:load-returns-earlier-save-point',
                             '%s model: save() was called %d times on %r in this process; load() returns the state of save no. %d (t = %.6g), not of the last one (t = %.6g)'
@@ -2108,8 +2518,9 @@ def run_history(res, ctx, tmp, kind, cfg, ops, lines=None, pending=None):
                 res.violate('saveload-history:load-returns-other-file', '%s model: load(%r) returns what was saved to %s' % (mname, f, other), desc,
                             observed={n: brief(got[n]) for n in bad[:4]}, required={n: brief(want[n]) for n in bad[:4]})
             else:
-                res.violate('saveload-history:%s-differs' % slot_template(bad[0]),
-                            '%s model: after load(%r) slot(s) %s differ from the model as it was at the last save() to that name' % (mname, f, bad[:6]), desc,
+                res.violate(('saveload-history:%s-differs' % slot_template(bad[0])) if kind != 'S' else 'saveload-history:StrengthModel:%s:%s-differs' % (store_branch[canon_name(f)], bad[0]),
+                            '%s model: after load(%r) slot(s) %s differ from the model as it was at the last save() to that name%s'
+                            % (mname, f, bad[:6], '' if kind != 'S' else ' (written with compressed=%s)' % (store_branch[canon_name(f)] == 'compressed')), desc,
                             observed={n: brief(got[n]) for n in bad[:4]}, required={n: brief(want[n]) for n in bad[:4]})
     for j, sn in idle.items():                  # a model that was loaded and then left alone is still what was loaded, whatever was solved / saved / loaded afterwards
         now = snap(live[j])
@@ -2120,7 +2531,7 @@ def run_history(res, ctx, tmp, kind, cfg, ops, lines=None, pending=None):
                         '%s model: live model no. %d was loaded and not touched afterwards, yet slot(s) %s changed while other models were solved / saved / loaded' % (mname, j, changed[:6]),
                         dict(base, live_model=j, model=mname), observed={n: brief(now[n]) for n in changed[:4]}, required={n: brief(sn[n]) for n in changed[:4]})
     res.sample(dict(model=mname, history=[list(o) for o in ops], loads_checked=nloads_checked), cap=4)
-    if lines is not None:
+    if lines is not None and kind != 'S':
         lines.append('sl.hist %s %d %s %d %s 0 %d %s' % (kind, len(phases), ' '.join(phases), len(states), ' '.join(enc_slots(s) for s in states), len(mops), ' '.join(mops)))
         pending.append(dict(loads=loads, names=names, desc=base))
 
@@ -2172,6 +2583,96 @@ def hist_precip_cfg(rng):
     cfg = gen_precip_cfg(rng)
     cfg.update(record=False, strength=False)
     return cfg
+
+
+def hist_strength_cfg(rng):
+    cfg = hist_precip_cfg(rng)
+    cfg.update(seedPSD=[10 ** rng.uniform(17, 19), round(rng.uniform(0.7, 1.6), 3) * 1e-9, round(rng.uniform(0.15, 0.35), 3)])
+    return cfg
+
+
+SYNTH_KINDS = ['distinct', 'distinct', 'neighbouring-doubles', 'late-nucleation', 'single-step', 'no-particles']
+
+
+def gen_synthetic_strength(rng, kind=None):
+    return dict(check='saveload-synthetic-strength', kind=kind or rng.choice(SYNTH_KINDS), seed=rng.getrandbits(30), steps=rng.randint(2, 60), nphases=rng.choice([1, 1, 2, 3]))
+
+
+def run_synthetic_strength(res, tmp, spec):
+    """a StrengthModel holding histories of a given shape class (n steps x phases), every keyword branch of save: rss ~ 1e-9 m,
+    ls ~ 1e-6 m, solid solution strength ~ 1e6 Pa, pairwise distinct ('neighbouring-doubles': ls = the next double after rss;
+    'no-particles': rss = ls = 0 everywhere, the one case in which two entries of the file are the same array)"""
+    vlib.use_repo()
+    from kawin.precipitation.coupling import StrengthModel
+    r = np.random.default_rng(spec['seed'])
+    n, P = (1 if spec['kind'] == 'single-step' else spec['steps']), spec['nphases']
+    sm = StrengthModel()
+    sm.rss = 1e-9 * r.lognormal(0, 0.3, (n, P))
+    sm.ls = 1e-6 * r.lognormal(0, 0.5, (n, P))
+    sm.solidStrength = 1e6 * (1 + 0.01 * r.standard_normal(n))
+    if spec['kind'] == 'neighbouring-doubles':
+        sm.ls = np.nextafter(sm.rss, np.inf)
+    if spec['kind'] == 'late-nucleation':
+        k = max(1, n // 2); sm.rss[:k] = 0; sm.ls[:k] = 0
+    if spec['kind'] == 'no-particles':
+        sm.rss[:] = 0; sm.ls[:] = 0
+    strength_roundtrips(res, tmp, sm, dict(spec))
+
+
+def gen_graingrowth(rng):
+    return dict(check='saveload-graingrowth', r0=round(10 ** rng.uniform(-5.3, -4.3), 8), sig=round(rng.uniform(0.15, 0.35), 3), t=round(10 ** rng.uniform(0, 2), 2), coupler=rng.random() < 0.5)
+
+
+def run_graingrowth_case(res, tmp, spec):
+    """GrainGrowthModel (and a Coupler around it) inherit GenericModel.save / load with the base-class toDict() == {}: the file is an
+    empty archive and load restores nothing; the oracle holds vacuously (counted as no-fields-written, not a violation: neither is a
+    precipitation or diffusion model)"""
+    vlib.use_repo()
+    from kawin.precipitation.coupling import GrainGrowthModel
+    from kawin.GenericModel import Coupler
+    def make():
+        g = GrainGrowthModel(1e-6, 1e-4)
+        g.LoadDistributionFunction(lambda r: np.exp(-(r - spec['r0']) ** 2 / (2 * (spec['sig'] * spec['r0']) ** 2)))
+        return g
+    g = make()
+    with _quiet():
+        g.solve(spec['t'], verbose=False)
+    for tag, kw in save_variants(GrainGrowthModel.save):
+        class_roundtrip(res, tmp, 'GrainGrowthModel', tag, kw, g, make, sorted(plain_slot_names(g)), save_named('save', 'grains'), lambda o, fn: o.load(fn), dict(spec))
+    if spec['coupler']:
+        c = Coupler([g])
+        for tag, kw in save_variants(Coupler.save):
+            class_roundtrip(res, tmp, 'Coupler', tag, kw, c, lambda: Coupler([make()]), sorted(plain_slot_names(c)), save_named('save', 'coupled.npz'), lambda o, fn: o.load(fn), dict(spec))
+
+
+def check_classes(res, ctx, tmp, rng, n_synth, n_gg, n_hist, oracle_only, errs):
+    """the classes of the package with a save / load pair that the sections above do not reach through real precipitation / diffusion
+    cases: synthetic strength histories, grain growth / coupler, strength-model histories; then the Lean-model comparison of every
+    sl.cls line queued in this corr() call (rows of the generated table)"""
+    for k in range(n_synth):
+        spec = gen_synthetic_strength(rng, SYNTH_KINDS[k] if k < len(SYNTH_KINDS) else None)
+        guarded(res, errs, 'saveload-synthetic-strength', dict(spec), lambda: run_synthetic_strength(res, tmp, spec))
+    for _ in range(n_gg):
+        spec = gen_graingrowth(rng)
+        guarded(res, errs, 'saveload-graingrowth', dict(spec), lambda: run_graingrowth_case(res, tmp, spec))
+    for _ in range(n_hist):
+        cfg = hist_strength_cfg(rng)
+        ops = gen_history(rng, 'S')
+        guarded(res, errs, 'saveload-history-strength', dict(history=True, kind='S', cfg=dict(cfg), ops=[list(o) for o in ops]),
+                lambda: run_history(res, ctx, tmp, 'S', cfg, ops))
+    try:
+        covered = {r[0] for r in tables()['rows']}
+        for c, _m, a, _l, sig in tables()['pairs']:
+            res.count('saveload-pair:%s.%s%s' % (c, a, sig))
+            if c not in covered and c not in ('GenericModel', 'DiffusionModel', 'PrecipitateBase'):
+                res.count('saveload-pair-WITHOUT-generator:%s.%s' % (c, a))
+                res.extra.setdefault('saveload_pairs_without_generator', []).append('%s.%s' % (c, a))
+    except Exception:
+        pass
+    if ctx.driver_ok and not oracle_only and CLS['lines']:
+        lines, pending = list(CLS['lines']), list(CLS['pending'])
+        guarded(res, errs, 'class-model-comparison', {}, lambda: compare_classes(res, vlib.run_driver(PROP, lines), pending))
+        res.traces += len(lines)
 
 
 def check_histories(res, ctx, tmp, rng, nP, nD, oracle_only, errs):
@@ -2694,6 +3195,7 @@ def corr(ctx, scale=1, oracle_only=False, only=None):
     t_start = _t0.time()
     tmp = tempfile.mkdtemp(prefix='kawin_C20_', dir='/tmp')
     lines, pending, jlines, jpending = [], [], [], []
+    CLS['lines'], CLS['pending'] = [], []
     try:
         with warnings.catch_warnings():
             warnings.simplefilter('ignore')
@@ -2763,7 +3265,23 @@ def corr(ctx, scale=1, oracle_only=False, only=None):
             if only in (None, 'surrogate', 'surrogate-training'):
                 rs = _random.Random('C20-training-%d-%d' % (ctx.seed, _CALLS['n']))
                 check_surrogate_training(res, ctx, kwnruns.therm_binary(), kwnruns.therm_ternary(), rs, tmp, oracle_only, errs, scale)
-            res.extra['section_s']['surrogate training grids / orders'] = round(_time.time() - t2, 1)
+            t3 = _time.time()
+            res.extra['section_s']['surrogate training grids / orders'] = round(t3 - t2, 1)
+            if only in (None, 'classes', 'precipitation', 'diffusion', 'history'):
+                rc = _random.Random('C20-classes-%d-%d' % (ctx.seed, _CALLS['n']))
+                if only in (None, 'classes', 'diffusion') and not ctx.thorough:
+                    # HomogenizationModel on real Ni-Cr thermodynamics in the quick tier too (the thorough tier has its cases above)
+                    cfg = dict(kind='real-homog', E=1, N=rc.randint(6, 10), L=2e-3, els=['NI', 'CR'], rec=rc.choice(['on', 'off', 'switched-off']), tseed=0, D0=0.0,
+                               steps=[rc.randint(2, 4), rc.randint(1, 3)], prof=[[round(rc.uniform(0.05, 0.12), 4), round(rc.uniform(0.25, 0.35), 4), 'linear']], solver='euler', T=1473.15)
+                    hl, hp = [], []
+                    guarded(res, errs, 'diffusion-case', dict(cfg), lambda: run_diff_case(res, ctx, tmp, cfg, hl, hp, resume=False))
+                    if ctx.driver_ok and not oracle_only and hl:
+                        guarded(res, errs, 'model-comparison', {}, lambda: compare_with_model(res, vlib.run_driver(PROP, hl), hp))
+                        res.traces += len(hl)
+                full = only in (None, 'classes')
+                check_classes(res, ctx, tmp, rc, (ctx.n(8, 60) * scale) if full else 0, (ctx.n(2, 10) * scale) if full else 0,
+                              (ctx.n(1, 4) * scale) if full else 0, oracle_only, errs)
+            res.extra['section_s']['every class with save/load x every keyword branch'] = round(_time.time() - t3, 1)
     finally:
         shutil.rmtree(tmp, ignore_errors=True)
     try:
@@ -2808,6 +3326,10 @@ def replay(ctx, entry):
                 if isinstance(cfg.get('x0'), list):
                     cfg['x0'] = tuple(cfg['x0'])
                 guarded(res, [], 'saveload-history', dict(case), lambda: run_history(res, ctx, tmp, case['kind'], cfg, [tuple(o) for o in case['ops']]))
+            elif case.get('check') == 'saveload-synthetic-strength':
+                guarded(res, [], 'saveload-synthetic-strength', dict(case), lambda: run_synthetic_strength(res, tmp, {k: case[k] for k in ('check', 'kind', 'seed', 'steps', 'nphases')}))
+            elif case.get('check') == 'saveload-graingrowth':
+                guarded(res, [], 'saveload-graingrowth', dict(case), lambda: run_graingrowth_case(res, tmp, {k: case[k] for k in ('check', 'r0', 'sig', 't', 'coupler')}))
             elif case.get('surrogate') == 'MulticomponentSurrogate' and 'stage' in case and case.get('stage') == 'nothing trained' and 'getter' in case:
                 guarded(res, [], 'untrained-multiphase-case', dict(case), lambda: replay_multiphase(res, case))
             elif case.get('check') == 'training-grid':
